@@ -2,7 +2,8 @@
    extracted inductive types; no Extract Constant. *)
 From Coq Require Import ExtrOcamlBasic.
 From Coq Require Extraction.
-From I18n Require Import Lib.Outcome Model.IntExpr.
+From I18n Require Import Lib.Outcome Model.IntExpr Model.PluralForms.
 Extraction Language OCaml.
 Extraction "model.ml"
-  IntExpr.parse_string IntExpr.pyeval IntExpr.codomain IntExpr.period.
+  IntExpr.parse_string IntExpr.pyeval IntExpr.codomain IntExpr.period
+  PluralForms.parse_plural_forms PluralForms.check_plurals_core.
